@@ -2,7 +2,7 @@
 # eval_seeded.sh <PROP> <worktree id> <m>  -> one-paragraph summary
 prop=$1; wt=$2; m=$3
 pk=$(cat ${MUTROOT:-/tmp/mut}/$wt/out/$m/pkgdir.txt | head -1 | tr -d ' \n')
-out=$(WT_OVERRIDE=${MUTROOT:-/tmp/mut}/$wt /verif/tools/try_seeded.sh $prop ${MUTROOT:-/tmp/mut}/$wt/out/$m $pk 2>&1)
+out=$(WT_OVERRIDE=${MUTROOT:-/tmp/mut}/$wt $(dirname $0)/try_seeded.sh $prop ${MUTROOT:-/tmp/mut}/$wt/out/$m $pk 2>&1)
 clean=$(echo "$out" | sed -n '/== demo on unmodified tree/,/== apply patch/p' | grep -E "^(ok|FAIL|---)" | head -2 | tr '\n' ' ')
 build=$(echo "$out" | sed -n '/== apply patch/,/== demo with patch/p' | grep -vE "^==" | head -3 | tr '\n' ' ')
 patched=$(echo "$out" | sed -n '/== demo with patch/,/== my check/p' | grep -E "^(ok|FAIL)" | head -2 | tr '\n' ' ')
